@@ -1008,3 +1008,475 @@ Qed.
 Definition is_okb {A} (r : res A) : bool := match r with Ok _ => true | _ => false end.
 Lemma is_okb_true {A} (r : res A) : is_okb r = true → ∃ a, r = Ok a.
 Proof. destruct r; try done. eauto. Qed.
+
+
+(* ================================================================================================ *)
+(* D. the model's sensitization circuit is closed, acyclic and its free nodes are the tied inputs     *)
+Lemma add_g_dom g n t fi fo fl g' n' :
+  af_uid fl = false → af_conn fl = false → af_redef fl = false →
+  add_g g n t fi fo fl = (g', Done, n') → n ∉ fo → dom g' = {[n]} ∪ dom g.
+Proof.
+  intros Hu Hc Hr H Hnfo. destruct (add_g_lookup _ _ _ _ _ _ _ _ Hu Hc Hr H Hnfo) as (_ & Hn & Hl & Hk & _).
+  apply set_eq. intros k. rewrite elem_of_union, elem_of_singleton, !elem_of_dom. destruct (decide (k = n)) as [->|Hne].
+  - rewrite Hl. split; [by left|eauto].
+  - rewrite (Hk k Hne). split.
+    + intros [j Hj]. right. destruct (g !! k); [eauto|]. by case_decide.
+    + intros [?|[j Hj]]; [done|]. rewrite Hj. case_decide; simpl; eauto.
+Qed.
+Lemma tie_loop_dom S : ∀ g g', add_each tie1 g S = (g', Done) → dom g' = dom g ∪ list_to_set S.
+Proof.
+  induction S as [|s S IH]; intros g g' H.
+  - apply my_add_each_nil in H as ->. set_solver.
+  - apply my_add_each_cons in H as (g1 & n1 & Hstep & Hrest). unfold tie1 in Hstep.
+    assert (Hnfo : s ∉ [pre "c0" s; pre "c1" s]).
+    { intros [E|[E|E%elem_of_nil]%elem_of_cons]%elem_of_cons; [| |done]; symmetry in E; by apply pre_ne in E. }
+    rewrite (IH _ _ Hrest), (add_g_dom _ _ _ _ _ af_default _ _ eq_refl eq_refl eq_refl Hstep Hnfo). set_solver.
+Qed.
+Lemma dif_loop_dom E : ∀ g g', add_each dif1 g E = (g', Done) → dom g' = dom g ∪ list_to_set (pre "dif" <$> E).
+Proof.
+  induction E as [|e E IH]; intros g g' H.
+  - apply my_add_each_nil in H as ->. set_solver.
+  - apply my_add_each_cons in H as (g1 & n1 & Hstep & Hrest). unfold dif1 in Hstep.
+    assert (Hnfo : pre "dif" e ∉ ["sat"]) by (intros ?%elem_of_list_singleton; by eapply pre_dif_sat).
+    rewrite (IH _ _ Hrest), (add_g_dom _ _ _ _ _ af_default _ _ eq_refl eq_refl eq_refl Hstep Hnfo). set_solver.
+Qed.
+(* the tie loop leaves the new input nodes alone *)
+Lemma tie_loop_inputs S : ∀ g g', add_each tie1 g S = (g', Done) →
+  (∀ s, s ∈ S → pre "c0" s ∈ dom g ∧ pre "c1" s ∈ dom g) →
+  ∀ s, s ∈ S → g' !! s = Some (mk_node Input false ∅).
+Proof.
+  induction S as [|s S IH]; intros g g' H Hd; [by intros s ?%elem_of_nil|].
+  apply my_add_each_cons in H as (g1 & n1 & Hstep & Hrest). unfold tie1 in Hstep.
+  assert (Hnfo : s ∉ [pre "c0" s; pre "c1" s]).
+  { intros [E|[E|E%elem_of_nil]%elem_of_cons]%elem_of_cons; [| |done]; symmetry in E; by apply pre_ne in E. }
+  destruct (add_g_lookup _ _ _ _ _ af_default _ _ eq_refl eq_refl eq_refl Hstep Hnfo) as (_ & Hs & Hls & _).
+  pose proof (add_g_eff _ _ _ _ _ af_default _ _ eq_refl eq_refl eq_refl Hstep Hnfo) as [Hd1 _].
+  assert (Hd' : ∀ s', s' ∈ S → pre "c0" s' ∈ dom g1 ∧ pre "c1" s' ∈ dom g1).
+  { intros s' Hs'. destruct (Hd s' ltac:(by right)). split; by apply Hd1. }
+  intros s' [->|Hs']%elem_of_cons; [|by apply (IH g1 g' Hrest Hd')].
+  destruct (tie_loop_lookup _ _ _ Hrest) as (_ & _ & Hlk).
+  rewrite Hlk by (apply elem_of_dom; rewrite Hls; eauto). rewrite Hls. simpl. f_equal.
+  assert (tie_src S s = ∅) as ->; [|unfold mk_node, upd_fi; simpl; f_equal; set_solver].
+  apply set_eq. intros y. unfold tie_src. rewrite elem_of_list_to_set, elem_of_list_filter. split; [|set_solver].
+  intros [[E|E] Hy]; exfalso; apply Hs; rewrite E; destruct (Hd y ltac:(by right)); done.
+Qed.
+
+Record sens_lookups (c : circuit) (n : string) (g : circuit) : Prop := {
+  sl_dom : dom g = inputs c ∪ set_map (pre "c0") (dom c) ∪ set_map (pre "c1") (dom c) ∪ {["sat"]} ∪ set_map (pre "dif") (endpoints c);
+  sl_in : ∀ s, s ∈ inputs c → g !! s = Some (mk_node Input false ∅);
+  sl_c0 : ∀ x i, c !! x = Some i →
+     g !! pre "c0" x = Some (upd_fi (λ F, (if decide (x ∈ inputs c) then {[x]} else ∅) ∪ F) (ren_info (pre "c0") (strip_info i)));
+  sl_c1 : ∀ x i, c !! x = Some i → x ≠ n →
+     g !! pre "c1" x = Some (upd_fi (λ F, (if decide (x ∈ inputs c) then {[x]} else ∅) ∪ F) (ren_info (pre "c1") (strip_info i)));
+  sl_flip : ∃ o, g !! pre "c1" n = Some (mk_node Not o {[pre "c0" n]});
+  sl_dif : ∀ e, e ∈ endpoints c → g !! pre "dif" e = Some (mk_node Xor false {[pre "c0" e; pre "c1" e]});
+  sl_sat : ∃ t, g !! "sat" = Some (mk_node t true (set_map (pre "dif") (endpoints c))) ∧ (t = Or ∨ t = Buf ∨ t = C0) ∧
+                (t = Buf → endpoints c ≠ ∅);
+  sl_fresh : ∀ s, s ∈ inputs c → s ∉ (set_map (pre "c0") (dom c) : gset string) ∧ s ∉ (set_map (pre "c1") (dom c) : gset string) ∧
+                                 s ≠ "sat" ∧ s ∉ (set_map (pre "dif") (endpoints c) : gset string) }.
+
+Theorem sens_model_lookups SC n M g :
+  comb (c_g SC) → n ∈ dom (c_g SC) → miter_self SC = Ok M → flip_node (c_g M) n = Ok g → sens_lookups (c_g SC) n g.
+Proof.
+  intros Hc Hn HM Hflip.
+  destruct (miter_self_inv _ _ HM) as (M1 & M2 & g3 & g4 & g5 & n4 & Hbb & H1 & H2 & H3 & H4 & H5 & ->).
+  set (c := c_g SC) in *. set (S := elements (startpoints c)) in *. set (E := elements (endpoints c)) in *.
+  change (c_g (with_g M2 g5)) with g5 in Hflip.
+  assert (B0 : ∀ x i, c !! x = Some i → c_g M2 !! pre "c0" x = Some (ren_info (pre "c0") (strip_info i))).
+  { intros x i Hx. eapply eff_lookup; [apply (add_sub_eff _ _ _ _ H2)| |set_solver]. by apply (add_sub_lookup_new _ _ _ _ x i H1). }
+  assert (B1 : ∀ x i, c !! x = Some i → c_g M2 !! pre "c1" x = Some (ren_info (pre "c1") (strip_info i))).
+  { intros x i Hx. by apply (add_sub_lookup_new _ _ _ _ x i H2). }
+  assert (D2 : dom (c_g M2) = set_map (pre "c0") (dom c) ∪ set_map (pre "c1") (dom c)).
+  { destruct (add_sub_nil _ _ _ _ H1) as (G1 & _). destruct (add_sub_nil _ _ _ _ H2) as (G2 & _).
+    rewrite G2, dom_spliced, G1, dom_spliced. simpl. rewrite dom_empty_L. fold c. set_solver. }
+  destruct (tie_loop_lookup _ _ _ H3) as (Hfresh & Hd23 & Htie).
+  pose proof (tie_loop_dom _ _ _ H3) as D3.
+  assert (Hnsat : "sat" ∉ ([] : list string)) by (by intros ?%elem_of_nil).
+  destruct (add_g_lookup _ _ _ _ _ af_out1 _ _ eq_refl eq_refl eq_refl H4 Hnsat) as (_ & Hsatfresh & Hsat4 & Hk4 & _ & _).
+  pose proof (add_g_eff _ _ _ _ _ af_out1 _ _ eq_refl eq_refl eq_refl H4 Hnsat) as [Hd34 _].
+  pose proof (add_g_dom _ _ _ _ _ af_out1 _ _ eq_refl eq_refl eq_refl H4 Hnsat) as D4.
+  destruct (dif_loop_lookup _ _ _ _ H5 Hsat4) as (Hdif & Hsat5 & Heff5).
+  pose proof (dif_loop_dom _ _ _ H5) as D5.
+  assert (HS : ∀ x, x ∈ S ↔ x ∈ inputs c).
+  { intros x. unfold S. rewrite elem_of_elements, (comb_startpoints c Hc). done. }
+  assert (F5 : ∀ k, k ∈ dom g3 → k ≠ "sat" → g5 !! k = g3 !! k).
+  { intros k Hk Hks. destruct Heff5 as [_ He5]. rewrite He5; [|apply Hd34, Hk|set_solver].
+    rewrite (Hk4 k Hks). case_decide as Hin; [by apply elem_of_nil in Hin|done]. }
+  assert (C0k : ∀ x i, c !! x = Some i →
+     g5 !! pre "c0" x = Some (upd_fi (λ F, (if decide (x ∈ inputs c) then {[x]} else ∅) ∪ F) (ren_info (pre "c0") (strip_info i)))).
+  { intros x i Hx. assert (pre "c0" x ∈ dom (c_g M2)) as Hd by (apply elem_of_dom; rewrite (B0 x i Hx); eauto).
+    rewrite F5; [|by apply Hd23|unfold pre; intros [=]]. rewrite (Htie _ Hd), (B0 x i Hx), tie_src_c0. simpl. do 2 f_equal.
+    destruct (decide (x ∈ S)) as [a|a], (decide (x ∈ inputs c)) as [b|b]; try done; exfalso; [apply b, HS, a|apply a, HS, b]. }
+  assert (C1k : ∀ x i, c !! x = Some i →
+     g5 !! pre "c1" x = Some (upd_fi (λ F, (if decide (x ∈ inputs c) then {[x]} else ∅) ∪ F) (ren_info (pre "c1") (strip_info i)))).
+  { intros x i Hx. assert (pre "c1" x ∈ dom (c_g M2)) as Hd by (apply elem_of_dom; rewrite (B1 x i Hx); eauto).
+    rewrite F5; [|by apply Hd23|unfold pre; intros [=]]. rewrite (Htie _ Hd), (B1 x i Hx), tie_src_c1. simpl. do 2 f_equal.
+    destruct (decide (x ∈ S)) as [a|a], (decide (x ∈ inputs c)) as [b|b]; try done; exfalso; [apply b, HS, a|apply a, HS, b]. }
+  apply elem_of_dom in Hn as [i_n Hin].
+  pose proof (C0k n i_n Hin) as Hc0n. pose proof (C1k n i_n Hin) as Hc1n.
+  rewrite (flip_node_closed_form g5 n _ _ Hc1n Hc0n) in Hflip.
+  2,3: cbn [upd_fi n_ty ren_info strip_info]; destruct (cb_nobb c Hc n i_n Hin); case_bool_decide; congruence.
+  injection Hflip as <-.
+  assert (HdomS : ∀ s, s ∈ S → pre "c0" s ∈ dom (c_g M2) ∧ pre "c1" s ∈ dom (c_g M2)).
+  { intros s (i & Hi & _)%HS%elem_of_inputs. split; apply elem_of_dom; [rewrite (B0 s i Hi)|rewrite (B1 s i Hi)]; eauto. }
+  assert (HEset : (list_to_set (pre "dif" <$> E) : gset string) = set_map (pre "dif") (endpoints c)).
+  { apply set_eq. intros y. rewrite elem_of_list_to_set, elem_of_list_fmap, elem_of_map. unfold E. by setoid_rewrite elem_of_elements. }
+  assert (HSset : (list_to_set S : gset string) = inputs c).
+  { apply set_eq. intros y. rewrite elem_of_list_to_set. apply HS. }
+  split.
+  - rewrite dom_insert_L. rewrite D5, D4, D3, D2, HEset, HSset.
+    assert (pre "c1" n ∈ (set_map (pre "c1") (dom c) : gset string)) as Hmem by (apply elem_of_map; exists n; split; [done|apply elem_of_dom; eauto]).
+    clear -Hmem. set_solver.
+  - intros s Hs. rewrite lookup_insert_ne.
+    2: { intros E'. destruct (Hfresh s (proj2 (HS s) Hs)). rewrite <- E', D2. apply elem_of_union_r, elem_of_map. exists n. split; [done|apply elem_of_dom; eauto]. }
+    assert (s ∈ dom g3) as Hs3 by (rewrite D3; apply elem_of_union_r, elem_of_list_to_set, HS, Hs).
+    rewrite F5; [by apply (tie_loop_inputs _ _ _ H3 HdomS), HS|done|]. intros ->. by apply Hsatfresh.
+  - intros x i Hx. rewrite lookup_insert_ne by (unfold pre; intros [=]). by apply C0k.
+  - intros x i Hx Hne. rewrite lookup_insert_ne by (intros E'; by apply (inj (pre "c1")) in E'). by apply C1k.
+  - eexists. by rewrite lookup_insert.
+  - intros e He. rewrite lookup_insert_ne by (unfold pre; intros [=]). apply Hdif. by apply elem_of_elements.
+  - eexists. rewrite lookup_insert_ne by (unfold pre; intros [=]). rewrite Hsat5. split.
+    + f_equal. unfold upd_fi, mk_node. simpl. f_equal. rewrite HEset. clear. set_solver.
+    + split.
+      * unfold E. destruct (elements (endpoints c)) as [|? [|]]; auto.
+      * unfold E. destruct (elements (endpoints c)) as [|e0 [|]] eqn:Hel; try done. intros _ He. rewrite He, elements_empty in Hel. done.
+  - intros s Hs. pose proof (Hfresh s (proj2 (HS s) Hs)) as Hf. rewrite D2 in Hf. repeat split.
+    + clear -Hf. set_solver.
+    + clear -Hf. set_solver.
+    + intros ->. apply Hsatfresh. rewrite D3. apply elem_of_union_r, elem_of_list_to_set, HS, Hs.
+    + rewrite <- HEset. intros (e & -> & He)%elem_of_list_to_set%elem_of_list_fmap.
+      (* dif_e was fresh when it was added, but the input s = dif_e existed already *)
+      assert (pre "dif" e ∈ dom g4) as Hin4 by (rewrite D4, D3; apply elem_of_union_r, elem_of_union_r, elem_of_list_to_set, HS, Hs).
+      clear -H5 He Hin4. revert g4 H5 Hin4. induction E as [|e' E IH]; intros g4 H5 Hin4; [by apply elem_of_nil in He|].
+      apply my_add_each_cons in H5 as (g1 & n1 & Hstep & Hrest). unfold dif1 in Hstep.
+      assert (Hnfo : pre "dif" e' ∉ ["sat"]) by (intros ?%elem_of_list_singleton; by eapply pre_dif_sat).
+      destruct (add_g_lookup _ _ _ _ _ af_default _ _ eq_refl eq_refl eq_refl Hstep Hnfo) as (_ & Hfr & _).
+      apply elem_of_cons in He as [->|He]; [done|]. apply (IH He g1 Hrest).
+      rewrite (add_g_dom _ _ _ _ _ af_default _ _ eq_refl eq_refl eq_refl Hstep Hnfo). set_solver.
+Qed.
+
+
+Definition crec (p : string) (c : circuit) (x : string) (i : ninfo) : ninfo :=
+  upd_fi (λ F, (if decide (x ∈ inputs c) then {[x]} else ∅) ∪ F) (ren_info (pre p) (strip_info i)).
+Lemma crec_input p c x i : n_ty i = Input → n_fi i = ∅ → x ∈ inputs c → n_ty (crec p c x i) = Buf ∧ n_fi (crec p c x i) = {[x]}.
+Proof.
+  intros Ht Hf Hx. unfold crec. cbn [upd_fi n_ty n_fi ren_info strip_info]. rewrite Ht, bool_decide_eq_true_2 by done.
+  split; [done|]. rewrite decide_True by done. rewrite Hf, set_map_empty. set_solver.
+Qed.
+Lemma crec_gate p c x i : n_ty i ≠ Input → x ∉ inputs c → n_ty (crec p c x i) = n_ty i ∧ n_fi (crec p c x i) = set_map (pre p) (n_fi i).
+Proof.
+  intros Ht Hx. unfold crec. cbn [upd_fi n_ty n_fi ren_info strip_info]. rewrite bool_decide_eq_false_2 by done.
+  split; [done|]. rewrite decide_False by done. set_solver.
+Qed.
+
+Section cert.
+  Context (c : circuit) (n : string) (g : circuit).
+  Hypothesis Hc : comb c.
+  Hypothesis Hn : n ∈ dom c.
+  Hypothesis HL : sens_lookups c n g.
+
+  Lemma in_inputs x i : c !! x = Some i → (x ∈ inputs c ↔ n_ty i = Input).
+  Proof. intros Hx. rewrite elem_of_inputs. split; [intros (i' & Hi' & Ht); congruence|eauto]. Qed.
+  Lemma gate_nonfree x i : c !! x = Some i → n_ty i ≠ Input → is_free i = false.
+  Proof. intros Hx Ht. destruct (is_free i) eqn:E; [|done]. by apply (cb_inputs_only c Hc x i Hx) in E. Qed.
+
+  (* classification of the nodes of g *)
+  Inductive cls (k : string) (j : ninfo) : Prop :=
+  | cls_in : k ∈ inputs c → j = mk_node Input false ∅ → cls k j
+  | cls_c0 x i : c !! x = Some i → k = pre "c0" x → j = crec "c0" c x i → cls k j
+  | cls_c1 x i : c !! x = Some i → x ≠ n → k = pre "c1" x → j = crec "c1" c x i → cls k j
+  | cls_flip o : k = pre "c1" n → j = mk_node Not o {[pre "c0" n]} → cls k j
+  | cls_dif e : e ∈ endpoints c → k = pre "dif" e → j = mk_node Xor false {[pre "c0" e; pre "c1" e]} → cls k j
+  | cls_sat t : k = "sat" → j = mk_node t true (set_map (pre "dif") (endpoints c)) → (t = Or ∨ t = Buf ∨ t = C0) →
+                (t = Buf → endpoints c ≠ ∅) → cls k j.
+  Lemma classify k j : g !! k = Some j → cls k j.
+  Proof.
+    intros Hk. assert (k ∈ dom g) as Hd by (apply elem_of_dom; eauto). rewrite (sl_dom _ _ _ HL) in Hd.
+    apply elem_of_union in Hd as [[[[Hd|Hd]%elem_of_union|Hd]%elem_of_union|Hd]%elem_of_union|Hd].
+    - apply cls_in; [done|]. rewrite (sl_in _ _ _ HL k Hd) in Hk. congruence.
+    - apply elem_of_map in Hd as (x & -> & [i Hi]%elem_of_dom). eapply cls_c0; eauto.
+      rewrite (sl_c0 _ _ _ HL x i Hi) in Hk. by injection Hk.
+    - apply elem_of_map in Hd as (x & -> & [i Hi]%elem_of_dom). destruct (decide (x = n)) as [->|Hne].
+      + destruct (sl_flip _ _ _ HL) as [o Ho]. rewrite Ho in Hk. injection Hk as <-. by eapply cls_flip.
+      + eapply cls_c1; eauto. rewrite (sl_c1 _ _ _ HL x i Hi Hne) in Hk. by injection Hk.
+    - apply elem_of_singleton in Hd as ->. destruct (sl_sat _ _ _ HL) as (t & Ht & Hty & Hb). rewrite Ht in Hk. injection Hk as <-.
+      by eapply cls_sat.
+    - apply elem_of_map in Hd as (e & -> & He). eapply cls_dif; eauto. rewrite (sl_dif _ _ _ HL e He) in Hk. by injection Hk.
+  Qed.
+  Lemma endpoints_dom e : e ∈ endpoints c → e ∈ dom c.
+  Proof. rewrite (comb_endpoints c Hc). intros (i & Hi & _)%elem_of_outputs. apply elem_of_dom; eauto. Qed.
+  Lemma in_dom_c0 x : x ∈ dom c → pre "c0" x ∈ dom g.
+  Proof. intros Hx. rewrite (sl_dom _ _ _ HL). do 3 apply elem_of_union_l. apply elem_of_union_r, elem_of_map. eauto. Qed.
+  Lemma in_dom_c1 x : x ∈ dom c → pre "c1" x ∈ dom g.
+  Proof. intros Hx. rewrite (sl_dom _ _ _ HL). do 2 apply elem_of_union_l. apply elem_of_union_r, elem_of_map. eauto. Qed.
+  Lemma in_dom_in s : s ∈ inputs c → s ∈ dom g.
+  Proof. intros Hx. rewrite (sl_dom _ _ _ HL). by do 4 apply elem_of_union_l. Qed.
+
+  (* fan-in of a copied node *)
+  Lemma crec_fi p x i f : c !! x = Some i → f ∈ n_fi (crec p c x i) →
+    (x ∈ inputs c ∧ f = x) ∨ (x ∉ inputs c ∧ ∃ y, y ∈ n_fi i ∧ f = pre p y).
+  Proof.
+    intros Hx Hf. destruct (decide (x ∈ inputs c)) as [Hin|Hin].
+    - pose proof (proj1 (in_inputs x i Hx) Hin) as Ht.
+      destruct (crec_input p c x i Ht (cb_input_fi c Hc x i Hx Ht) Hin) as [_ Hfi]. rewrite Hfi in Hf. left. set_solver.
+    - assert (n_ty i ≠ Input) as Ht by (intros Ht; apply Hin, (in_inputs x i Hx), Ht).
+      destruct (crec_gate p c x i Ht Hin) as [_ Hfi]. rewrite Hfi in Hf. apply elem_of_map in Hf as (y & -> & Hy). right. eauto.
+  Qed.
+
+  Theorem sens_closed : closed g.
+  Proof.
+    intros k j f Hk Hf. destruct (classify k j Hk) as [Hin ->|x i Hx -> ->|x i Hx Hne -> ->|o -> ->|e He -> ->|t -> -> _ _].
+    - simpl in Hf. set_solver.
+    - destruct (crec_fi _ x i f Hx Hf) as [[Hin ->]|[_ (y & Hy & ->)]]; [by apply in_dom_in|].
+      apply in_dom_c0. eapply (cb_closed c Hc); eauto.
+    - destruct (crec_fi _ x i f Hx Hf) as [[Hin ->]|[_ (y & Hy & ->)]]; [by apply in_dom_in|].
+      apply in_dom_c1. eapply (cb_closed c Hc); eauto.
+    - simpl in Hf. apply elem_of_singleton in Hf as ->. by apply in_dom_c0.
+    - simpl in Hf. apply elem_of_union in Hf as [->%elem_of_singleton| ->%elem_of_singleton];
+        [apply in_dom_c0|apply in_dom_c1]; by apply endpoints_dom.
+    - simpl in Hf. rewrite (sl_dom _ _ _ HL). by apply elem_of_union_r.
+  Qed.
+
+  Theorem sens_free_nodes : free_nodes g = inputs c.
+  Proof.
+    apply set_eq. intros k. unfold free_nodes. rewrite elem_of_dom. split.
+    - intros [j [Hk Hfree]%map_filter_lookup_Some]. simpl in Hfree.
+      destruct (classify k j Hk) as [Hin ->|x i Hx -> ->|x i Hx Hne -> ->|o -> ->|e He -> ->|t -> -> Hty Hb]; try done.
+      + exfalso. destruct (decide (x ∈ inputs c)) as [Hin|Hin].
+        * pose proof (proj1 (in_inputs x i Hx) Hin) as Ht.
+          destruct (crec_input "c0" c x i Ht (cb_input_fi c Hc x i Hx Ht) Hin) as [H1 H2].
+          unfold is_free in Hfree. rewrite H1, H2 in Hfree. apply bool_decide_eq_true in Hfree. set_solver.
+        * assert (n_ty i ≠ Input) as Ht by (intros Ht; apply Hin, (in_inputs x i Hx), Ht).
+          destruct (crec_gate "c0" c x i Ht Hin) as [H1 H2]. pose proof (gate_nonfree x i Hx Ht) as Hnf.
+          unfold is_free in Hfree, Hnf. rewrite H1, H2 in Hfree.
+          destruct (n_ty i); try done; apply bool_decide_eq_true in Hfree; apply (proj1 (set_map_empty_iff (pre "c0") (n_fi i))) in Hfree;
+            by rewrite bool_decide_eq_true_2 in Hnf.
+      + exfalso. destruct (decide (x ∈ inputs c)) as [Hin|Hin].
+        * pose proof (proj1 (in_inputs x i Hx) Hin) as Ht.
+          destruct (crec_input "c1" c x i Ht (cb_input_fi c Hc x i Hx Ht) Hin) as [H1 H2].
+          unfold is_free in Hfree. rewrite H1, H2 in Hfree. apply bool_decide_eq_true in Hfree. set_solver.
+        * assert (n_ty i ≠ Input) as Ht by (intros Ht; apply Hin, (in_inputs x i Hx), Ht).
+          destruct (crec_gate "c1" c x i Ht Hin) as [H1 H2]. pose proof (gate_nonfree x i Hx Ht) as Hnf.
+          unfold is_free in Hfree, Hnf. rewrite H1, H2 in Hfree.
+          destruct (n_ty i); try done; apply bool_decide_eq_true in Hfree; apply (proj1 (set_map_empty_iff (pre "c1") (n_fi i))) in Hfree;
+            by rewrite bool_decide_eq_true_2 in Hnf.
+      + exfalso. unfold is_free in Hfree. destruct Hty as [->|[->| ->]]; simpl in Hfree; try done.
+        apply bool_decide_eq_true in Hfree. apply (proj1 (set_map_empty_iff (pre "dif") (endpoints c))) in Hfree. by apply Hb.
+    - intros Hin. exists (mk_node Input false ∅). apply map_filter_lookup_Some. split; [by apply (sl_in _ _ _ HL)|done].
+  Qed.
+
+  Theorem sens_startpoints : startpoints g = inputs c.
+  Proof.
+    apply set_eq. intros k. unfold startpoints. rewrite elem_of_of_type. split.
+    - intros (j & Hk & Hty).
+      assert (n_ty j = Input ∨ n_ty j = BbOut) as Ht.
+      { apply orb_true_iff in Hty as [H|H]; unfold is_ty in H; apply bool_decide_eq_true in H; auto. }
+      destruct (classify k j Hk) as [Hin ->|x i Hx -> ->|x i Hx Hne -> ->|o -> ->|e He -> ->|t -> -> Hty' Hb]; try done.
+      + exfalso. destruct (decide (x ∈ inputs c)) as [Hin|Hin].
+        * pose proof (proj1 (in_inputs x i Hx) Hin) as Hti.
+          destruct (crec_input "c0" c x i Hti (cb_input_fi c Hc x i Hx Hti) Hin) as [H1 _]. rewrite H1 in Ht. by destruct Ht.
+        * assert (n_ty i ≠ Input) as Hti by (intros Hti; apply Hin, (in_inputs x i Hx), Hti).
+          destruct (crec_gate "c0" c x i Hti Hin) as [H1 _]. rewrite H1 in Ht. destruct (cb_nobb c Hc x i Hx). by destruct Ht.
+      + exfalso. destruct (decide (x ∈ inputs c)) as [Hin|Hin].
+        * pose proof (proj1 (in_inputs x i Hx) Hin) as Hti.
+          destruct (crec_input "c1" c x i Hti (cb_input_fi c Hc x i Hx Hti) Hin) as [H1 _]. rewrite H1 in Ht. by destruct Ht.
+        * assert (n_ty i ≠ Input) as Hti by (intros Hti; apply Hin, (in_inputs x i Hx), Hti).
+          destruct (crec_gate "c1" c x i Hti Hin) as [H1 _]. rewrite H1 in Ht. destruct (cb_nobb c Hc x i Hx). by destruct Ht.
+      + simpl in Ht. destruct Hty' as [->|[->| ->]]; by destruct Ht.
+    - intros Hin. exists (mk_node Input false ∅). split; [by apply (sl_in _ _ _ HL)|done].
+  Qed.
+End cert.
+
+
+Section cert_acyclic.
+  Context (c : circuit) (n : string) (g : circuit) (r : string → nat).
+  Hypothesis Hc : comb c.
+  Hypothesis Hn : n ∈ dom c.
+  Hypothesis HL : sens_lookups c n g.
+  Hypothesis Hr : ∀ x i f, c !! x = Some i → f ∈ n_fi i → r f < r x.
+
+  Let cr := crank c r.
+  Let B := size c.
+  Definition rk0 : gmap string nat := kmap (pre "c0") (map_imap (λ x _, Some (S (cr x))) c).
+  Definition rk1 : gmap string nat := kmap (pre "c1") (map_imap (λ x _, Some (S (S (B + cr x)))) c).
+  Definition srank (k : string) : nat :=
+    match rk0 !! k with
+    | Some v => v
+    | None => match rk1 !! k with
+              | Some v => v
+              | None => if decide (k = "sat") then 2 * B + 5
+                        else if decide (k ∈ (set_map (pre "dif") (endpoints c) : gset string)) then 2 * B + 4 else 0
+              end
+    end.
+  Lemma rk0_hit x : x ∈ dom c → rk0 !! pre "c0" x = Some (S (cr x)).
+  Proof. intros [i Hi]%elem_of_dom. unfold rk0. rewrite lookup_kmap by apply _. by rewrite map_lookup_imap, Hi. Qed.
+  Lemma rk1_hit x : x ∈ dom c → rk1 !! pre "c1" x = Some (S (S (B + cr x))).
+  Proof. intros [i Hi]%elem_of_dom. unfold rk1. rewrite lookup_kmap by apply _. by rewrite map_lookup_imap, Hi. Qed.
+  Lemma rk0_miss k : (∀ x, x ∈ dom c → k ≠ pre "c0" x) → rk0 !! k = None.
+  Proof.
+    intros H. unfold rk0. apply lookup_kmap_None; [apply _|]. intros x ->. rewrite map_lookup_imap.
+    destruct (c !! x) as [i|] eqn:E; [|done]. exfalso. apply (H x); [apply elem_of_dom; eauto|done].
+  Qed.
+  Lemma rk1_miss k : (∀ x, x ∈ dom c → k ≠ pre "c1" x) → rk1 !! k = None.
+  Proof.
+    intros H. unfold rk1. apply lookup_kmap_None; [apply _|]. intros x ->. rewrite map_lookup_imap.
+    destruct (c !! x) as [i|] eqn:E; [|done]. exfalso. apply (H x); [apply elem_of_dom; eauto|done].
+  Qed.
+  Lemma srank_c0 x : x ∈ dom c → srank (pre "c0" x) = S (cr x).
+  Proof. intros Hx. unfold srank. by rewrite (rk0_hit x Hx). Qed.
+  Lemma srank_c1 x : x ∈ dom c → srank (pre "c1" x) = S (S (B + cr x)).
+  Proof.
+    intros Hx. unfold srank. rewrite rk0_miss by (intros y _; unfold pre; intros [=]). by rewrite (rk1_hit x Hx).
+  Qed.
+  Lemma srank_sat : srank "sat" = 2 * B + 5.
+  Proof.
+    unfold srank. rewrite rk0_miss by (intros y _; unfold pre; intros [=]).
+    rewrite rk1_miss by (intros y _; unfold pre; intros [=]). by rewrite decide_True.
+  Qed.
+  Lemma srank_dif e : e ∈ endpoints c → srank (pre "dif" e) = 2 * B + 4.
+  Proof.
+    intros He. unfold srank. rewrite rk0_miss by (intros y _; unfold pre; intros [=]).
+    rewrite rk1_miss by (intros y _; unfold pre; intros [=]).
+    rewrite decide_False by (unfold pre; intros [=]). rewrite decide_True; [done|]. apply elem_of_map. eauto.
+  Qed.
+  Lemma srank_in s : s ∈ inputs c → srank s = 0.
+  Proof.
+    intros Hs. destruct (sl_fresh _ _ _ HL s Hs) as (F0 & F1 & F2 & F3). unfold srank.
+    rewrite rk0_miss by (intros y Hy ->; apply F0, elem_of_map; eauto).
+    rewrite rk1_miss by (intros y Hy ->; apply F1, elem_of_map; eauto).
+    rewrite decide_False by done. by rewrite decide_False.
+  Qed.
+  Lemma cr_bound x : x ∈ dom c → cr x < B.
+  Proof. apply crank_bound. Qed.
+  Lemma cr_mono x i f : c !! x = Some i → f ∈ n_fi i → cr f < cr x.
+  Proof. apply (crank_mono c r (cb_closed c Hc) Hr). Qed.
+
+  Theorem sens_acyclic : acyclic g.
+  Proof.
+    exists srank. intros k j f Hk Hf.
+    destruct (classify c n g HL k j Hk) as [Hin ->|x i Hx -> ->|x i Hx Hne -> ->|o -> ->|e He -> ->|t -> -> _ _].
+    - simpl in Hf. set_solver.
+    - assert (x ∈ dom c) as Hxd by (apply elem_of_dom; eauto). rewrite (srank_c0 x Hxd).
+      destruct (crec_fi c n g Hc Hn HL "c0" x i f Hx Hf) as [[Hin ->]|[_ (y & Hy & ->)]].
+      + rewrite (srank_in x Hin). lia.
+      + rewrite srank_c0 by (eapply (cb_closed c Hc); eauto). pose proof (cr_mono x i y Hx Hy). lia.
+    - assert (x ∈ dom c) as Hxd by (apply elem_of_dom; eauto). rewrite (srank_c1 x Hxd).
+      destruct (crec_fi c n g Hc Hn HL "c1" x i f Hx Hf) as [[Hin ->]|[_ (y & Hy & ->)]].
+      + rewrite (srank_in x Hin). lia.
+      + rewrite srank_c1 by (eapply (cb_closed c Hc); eauto). pose proof (cr_mono x i y Hx Hy). lia.
+    - simpl in Hf. apply elem_of_singleton in Hf as ->. rewrite (srank_c0 n Hn), (srank_c1 n Hn). lia.
+    - rewrite (srank_dif e He). pose proof (endpoints_dom c Hc e He) as Hed. pose proof (cr_bound e Hed).
+      simpl in Hf. apply elem_of_union in Hf as [->%elem_of_singleton| ->%elem_of_singleton];
+        [rewrite (srank_c0 e Hed)|rewrite (srank_c1 e Hed)]; lia.
+    - rewrite srank_sat. simpl in Hf. apply elem_of_map in Hf as (e & -> & He). rewrite (srank_dif e He). lia.
+  Qed.
+End cert_acyclic.
+
+
+(* the certificate of the model's sensitization circuit, for all inputs *)
+Theorem sens_model_cert SC n M g :
+  comb (c_g SC) → n ∈ dom (c_g SC) → miter_self SC = Ok M → flip_node (c_g M) n = Ok g →
+  closed g ∧ acyclic g ∧ free_nodes g = inputs (c_g SC) ∧ startpoints g = inputs (c_g SC).
+Proof.
+  intros Hc Hn HM HF. pose proof (sens_model_lookups SC n M g Hc Hn HM HF) as HL.
+  destruct (cb_acyclic _ Hc) as [r Hr].
+  split; [by eapply sens_closed|]. split; [by eapply sens_acyclic|]. split; [by eapply sens_free_nodes|by eapply sens_startpoints].
+Qed.
+
+(* an accepted sensitization_transform call unpacked: the mitered sub-circuit, the miter, the flip *)
+Lemma sens_model_parts C n Eo T :
+  c_bbs C = ∅ → comb (c_g C) → n ∈ dom (c_g C) → sensitization_transform C n Eo = Ok T →
+  ∃ SCx M, c_g SCx = (sens_sub C Eo).1 ∧ comb (c_g SCx) ∧ n ∈ dom (c_g SCx) ∧
+           miter_self SCx = Ok M ∧ flip_node (c_g M) n = Ok (c_g T).
+Proof.
+  intros Hbb Hc Hn HT. unfold sensitization_transform in HT. rewrite bool_decide_eq_true_2 in HT by done. cbn [negb] in HT.
+  assert (Hnone : ∀ SCx name, rbind (miter_self SCx) (λ M, rbind (flip_node (c_g M) n) (λ g, Ok {| c_name := name; c_g := g; c_bbs := c_bbs M |})) = Ok T →
+            ∃ M, miter_self SCx = Ok M ∧ flip_node (c_g M) n = Ok (c_g T)).
+  { intros SCx name H. destruct (miter_self SCx) as [M| | |] eqn:EM; try done. simpl in H.
+    destruct (flip_node (c_g M) n) as [g| | |] eqn:EF; try done. simpl in H. injection H as <-. eauto. }
+  assert (Hcase0 : rbind (miter_self C) (λ M, rbind (flip_node (c_g M) n) (λ g, Ok {| c_name := c_name C ++ "_sensitize_" ++ n; c_g := g; c_bbs := c_bbs M |})) = Ok T →
+     ∃ SCx M, c_g SCx = c_g C ∧ comb (c_g SCx) ∧ n ∈ dom (c_g SCx) ∧ miter_self SCx = Ok M ∧ flip_node (c_g M) n = Ok (c_g T)).
+  { intros H. destruct (Hnone _ _ H) as (M & HM & HF). exists C, M. done. }
+  destruct Eo as [[|e l]|]; cbn [sens_sub fst]; [by apply Hcase0| |by apply Hcase0].
+  set (eord := e :: l) in *. case_bool_decide as Hnd; cbn [negb] in HT; [|done].
+  destruct (forallb (λ x, bool_decide (x ∈ dom (c_g C))) eord) eqn:Hall; cbn [negb] in HT; [|done].
+  destruct (negb (bool_decide (n ∈ tfi (c_g C) eord)) && negb (bool_decide (n ∈ (list_to_set eord : gset string)))) eqn:Hin; [done|].
+  destruct (has_bb_type _); [done|].
+  set (Es := (list_to_set eord : gset string)) in *. set (K := Es ∪ tfi (c_g C) eord) in *.
+  change (map_imap _ (induced (c_g C) K)) with (sel_graph (c_g C) Es K) in HT.
+  destruct (Hnone _ _ HT) as (M & HM & HF).
+  pose proof (cb_closed _ Hc) as Hcl.
+  assert (Hsub : sub_of (sel_graph (c_g C) Es K) (c_g C)) by (apply sel_sub_of; [done|]; by apply cone_fanin_closed).
+  assert (HcS : comb (sel_graph (c_g C) Es K)) by (by eapply sub_comb).
+  assert (HnK : n ∈ K).
+  { apply andb_false_iff in Hin as [H|H]; apply negb_false_iff, bool_decide_eq_true in H; set_solver. }
+  assert (HnS : n ∈ dom (sel_graph (c_g C) Es K)) by (by apply sel_dom).
+  eexists _, M. split; [|split; [|split; [|split; [exact HM|exact HF]]]]; done.
+Qed.
+
+(* the specification the props functions need, for the MODEL's sensitization circuit, all inputs: no certificate hypothesis *)
+Theorem sens_spec_model C n Eo T :
+  c_bbs C = ∅ → comb (c_g C) → n ∈ dom (c_g C) → sensitization_transform C n Eo = Ok T →
+  startpoints (c_g T) = inputs (sens_sub C Eo).1 ∧
+  sens_spec (c_g C) n (elements (sens_sub C Eo).2) (elements (startpoints (c_g T))) (c_g T).
+Proof.
+  intros Hbb Hc Hn HT.
+  destruct (sens_model_parts C n Eo T Hbb Hc Hn HT) as (SCx & M & HSC & HcS & HnS & HM & HF).
+  destruct (sens_model_cert SCx n M (c_g T) HcS HnS HM HF) as (Hcl & Hac & Hfree & Hst).
+  rewrite HSC in Hfree, Hst. split; [done|].
+  apply sens_spec_of_model; try done. by rewrite Hfree, Hst.
+Qed.
+
+
+Lemma sel_inputs c E K : inputs (sel_graph c E K) = inputs c ∩ K.
+Proof.
+  apply set_eq. intros y. rewrite elem_of_intersection, !elem_of_inputs. split.
+  - intros (j & Hj & Ht). rewrite sel_lookup in Hj. destruct (induced c K !! y) as [j'|] eqn:E'; [|done]. injection Hj as <-.
+    apply induced_lookup in E' as (i & Hi & HK & ->). split; [|done]. exists i. done.
+  - intros [(i & Hi & Ht) HK]. eexists. rewrite sel_lookup.
+    assert (induced c K !! y = Some (upd_fi (λ fi, fi ∩ K) i)) as -> by (apply induced_lookup; eauto). split; [done|done].
+Qed.
+
+(* ---- props.influence / avg_sensitivity / sensitize on the model's circuits: no certificate hypotheses ---- *)
+Lemma sens_circuits_model C n : c_bbs C = ∅ → comb (c_g C) →
+  ∀ s T, s ∈ cone_startpoints (c_g C) n → sensitization_transform C s (Some [n]) = Ok T →
+    (∃ i, c_g C !! s = Some i ∧ n_ty i = Input ∧ n_fi i = ∅) ∧
+    sens_spec (c_g C) s [n] (elements (cone_startpoints (c_g C) n)) (c_g T).
+Proof.
+  intros Hbb Hc s T Hs HT. set (c := c_g C) in *.
+  assert (Hsin : s ∈ inputs c).
+  { unfold cone_startpoints in Hs. rewrite (comb_startpoints c Hc) in Hs. set_solver. }
+  pose proof Hsin as (i & Hi & Hty)%elem_of_inputs.
+  split; [exists i; split; [done|]; split; [done|]; by eapply (cb_input_fi c Hc)|].
+  assert (Hsd : s ∈ dom c) by (apply elem_of_dom; eauto).
+  destruct (sens_spec_model C s (Some [n]) T Hbb Hc Hsd HT) as [Hst Hsp]. cbn [sens_sub fst snd] in Hst, Hsp.
+  assert (HEs : (list_to_set [n] : gset string) = {[n]}) by (apply set_eq; set_solver).
+  rewrite HEs in Hsp, Hst. rewrite elements_singleton in Hsp.
+  assert (Heq : startpoints (c_g T) = cone_startpoints c n).
+  { rewrite Hst, sel_inputs. unfold cone_startpoints. rewrite (comb_startpoints c Hc). apply set_eq. set_solver. }
+  by rewrite Heq in Hsp.
+Qed.
+
+Theorem influence_model_full mc C n out :
+  mc_exact mc → c_bbs C = ∅ → comb (c_g C) → influence mc C n = Ok out →
+  out = (λ s, (s, influence_def (c_g C) n (elements (cone_startpoints (c_g C) n)) s)) <$> elements (cone_startpoints (c_g C) n).
+Proof. intros Hmc Hbb Hc. apply influence_model_spec; [done|]. by apply sens_circuits_model. Qed.
+Theorem avg_sensitivity_model_full mc C n a :
+  mc_exact mc → c_bbs C = ∅ → comb (c_g C) → avg_sensitivity mc C n = Ok a →
+  a = avg_sensitivity_def (c_g C) n (elements (cone_startpoints (c_g C) n)).
+Proof. intros Hmc Hbb Hc. apply avg_sensitivity_model_spec; [done|]. by apply sens_circuits_model. Qed.
+Theorem sensitize_model_full (solve : circuit → list (string * bool) → option val) C n r :
+  (∀ g asm v, solve g asm = Some v → consistent g v ∧ Forall (λ p : string * bool, v p.1 = p.2) asm) →
+  (∀ g asm, solve g asm = None → ¬ ∃ v, consistent g v ∧ Forall (λ p : string * bool, v p.1 = p.2) asm) →
+  c_bbs C = ∅ → comb (c_g C) → n ∈ dom (c_g C) → sensitize solve C n = Ok r →
+  match r with
+  | Some μ => ∃ ρ : val, Forall (λ p : string * bool, ρ p.1 = p.2) μ ∧ sens_at (c_g C) n (elements (outputs (c_g C))) ρ
+  | None => ∀ ρ, ¬ sens_at (c_g C) n (elements (outputs (c_g C))) ρ
+  end.
+Proof.
+  intros Hsound Hcomp Hbb Hc Hn Hr.
+  destruct (sensitization_transform C n None) as [T| | |] eqn:HT; try (unfold sensitize in Hr; rewrite HT in Hr; done).
+  destruct (sens_spec_model C n None T Hbb Hc Hn HT) as [_ Hsp]. cbn [sens_sub snd] in Hsp.
+  pose proof (sensitize_model_spec solve C n _ _ T r Hsound Hcomp HT Hsp Hr) as H.
+  destruct r as [μ|]; [|done]. by destruct H as [_ H].
+Qed.
